@@ -37,6 +37,7 @@ type c01Knobs struct {
 	restart                     bool
 	natA, natB                  int // 0 none, else simnet.NATKind+1 (at most one side)
 	relayA, relayB              bool
+	latency                     time.Duration // >0: no fault phase, a loss-free network with this one-way delay
 }
 
 func drawC01Knobs(c *core.Ctx) c01Knobs {
@@ -59,6 +60,13 @@ func drawC01Knobs(c *core.Ctx) c01Knobs {
 	k.advW = []int{10, 20}[t.Choose(2, "advw")]
 	k.trickle = t.Bias(1, 2, "trickle")
 	k.restart = t.Bias(1, 4, "restart")
+	if t.Bias(1, 6, "latency") {
+		// slow but perfectly reliable network: round trips longer than the check interval, so that answers
+		// arrive after the next repetitions of their request have been sent (the budget of the smallest
+		// maxReq covers it: about 2*latency/interval + 1 requests per pair before the first answer)
+		k.latency = k.checkInterval * time.Duration(3+t.Choose(3, "latmul")) / 2
+		k.dropW, k.dupW, k.reorderW = 0, 0, 0
+	}
 	k.relayA = t.Bias(1, 5, "relayA")
 	k.relayB = !k.liteB && t.Bias(1, 5, "relayB")
 	if t.Bias(1, 4, "nat") {
@@ -90,6 +98,7 @@ func drawC01Knobs(c *core.Ctx) c01Knobs {
 	c.Knob("liteB", k.liteB)
 	c.Knob("ci", k.checkInterval.String())
 	c.Knob("maxReq", k.maxReq)
+	c.Knob("latency", k.latency.String())
 	c.Knob("blockPct", k.blockPct)
 	c.Knob("faultW", fmt.Sprintf("drop%d/dup%d/reorder%d", k.dropW, k.dupW, k.reorderW))
 	c.Knob("trickle", k.trickle)
@@ -364,6 +373,11 @@ func (s *c01Session) generation(gen int) {
 
 	// Fault phase: bounded by the per-pair retry budget (public configuration).
 	budget := time.Duration(k.maxReq-2) * k.checkInterval
+	if k.latency > 0 {
+		budget = 0
+		d.S.Latency = k.latency
+		c.Fault("constant-latency-above-check-interval")
+	}
 	faultEnd := checkingStart + budget
 	steps := 0
 	// The retry budget is per pair and counted in requests: candidate arrivals trigger extra check
